@@ -11,6 +11,8 @@
    by the differential check, not proved. *)
 From Compio.Model Require Import Base SockSpec.
 From Compio.Thm Require Import SockSpecThm.
+From Compio.Gen Require Frag.
+From Compio.Thm Require FragIoThm.
 
 (* ---------------------------------------------------------------------- *)
 (* Streams.  For EVERY interleaving [es] of sender operations (plain,
@@ -308,3 +310,17 @@ Example C14_nonvacuous_backpressure :
   bp_run IReadable 3 [1;2;3]%N [4;5;6;7;8]%N [2;2;2;2;2;2;2;2]%nat = ([1;2;3]%N, [], [4;5;6;7;8]%N).
 Proof. vm_compute. split; reflexivity. Qed.
 Print Assumptions C14_nonvacuous_backpressure.
+
+(* ---- source tie (translated from the Rust source on every run by tools/rs2v.py
+        into gen/Frag.v; an edit of the function changes the generated definition) ---- *)
+(* multishot RECVMSG result buffer (compio-driver/src/sys/op/managed/iour.rs): the number of bytes
+   RecvMsgMultiResultImpl::new requires in front of the payload and the offset data() slices at, as
+   the source has them now (`size_of::<io_uring_recvmsg_out>() + NLEN + clen`, the two struct sizes
+   being the model's MSHOT_HDR / MSHOT_NAME), are the model's layout: the payload is what follows the
+   header, the name area and the control area of the length the operation RESERVED *)
+Theorem C14_mshot_layout_is_source : forall (L clen : nat) (buf : list byte),
+  mshot_data clen buf = skipn (Frag.mshot_data_offset MSHOT_HDR MSHOT_NAME clen) buf
+  /\ mshot_payload_cap L clen = L - Frag.mshot_fixed_len MSHOT_HDR MSHOT_NAME clen
+  /\ Frag.mshot_fixed_len MSHOT_HDR MSHOT_NAME clen = Frag.mshot_data_offset MSHOT_HDR MSHOT_NAME clen.
+Proof. exact FragIoThm.mshot_layout_tie. Qed.
+Print Assumptions C14_mshot_layout_is_source.
